@@ -705,6 +705,12 @@ func TestC18_TypedValue(t *testing.T) {
 				in = genLeafListTV(rt, s.f.Type)
 			}
 		}
+		// one JSON payload in six is followed by something: a second value, a stray bracket, a comma. The
+		// bytes are then not one JSON text, whatever their first value is
+		if j, ok := in.tv.GetValue().(*gpb.TypedValue_JsonIetfVal); ok && rapid.IntRange(0, 5).Draw(rt, "trailing") == 0 {
+			tail := rapid.SampledFrom([]string{" 6", "x", "]", "}", ",", " true", `""`, " null", "[", "\n{}"}).Draw(rt, "tail")
+			in = tvin{model.JSONIETFTV(append(append([]byte(nil), j.JsonIetfVal...), tail...)), in.class + "+trailing-data"}
+		}
 		tolerant := rapid.Bool().Draw(rt, "tolerateJSONInconsistencies")
 		iv := verdictTV(s, in.tv)
 		path := model.PathProto(pathElems(s, keys))
